@@ -81,3 +81,47 @@ def reachable_from(cfg: CFG, node: Node, exc: bool = False) -> Set[int]:
         seen.add(x)
         st.extend(sid for sid, k in cfg.succ[x] if exc or k != "exc")
     return seen
+
+
+def dominance_facts(fi: FuncInfo, target: Node):
+    """Branch facts that hold at ``target`` by *dominance*: a test node dominates ``target``, ``target`` is reachable
+    from only one of its two edges, and no name the condition mentions is assigned on any path
+    after the test.  Unlike must-facts these are not lost when the
+    mentioned names are merely *passed* to a call (``filter(None, parts)``) — passing a list or an int does not change
+    ``len(parts) > limit``; callers use this for conditions over immutable values / lengths only."""
+    from . import q as _q
+
+    cfg = fi.cfg
+    out = set()
+    dom = cfg.dominators().get(target.id, set())
+    for t in cfg.nodes:
+        if t.kind != "test" or t.id not in dom or t.id == target.id:
+            continue
+        succ_t = [sid for sid, k in cfg.succ[t.id] if k == "true"]
+        succ_f = [sid for sid, k in cfg.succ[t.id] if k == "false"]
+
+        def reach(starts):
+            seen = set()
+            st = list(starts)
+            while st:
+                x = st.pop()
+                if x in seen:
+                    continue
+                seen.add(x)
+                st.extend(sid for sid, _k in cfg.succ[x])
+            return seen
+
+        rt, rf = reach(succ_t), reach(succ_f)
+        via_t, via_f = target.id in rt, target.id in rf
+        if via_t == via_f:
+            continue
+        after = rt | rf
+        ok = True
+        for p in _q.paths_in(t.ast):
+            for st in _q.stores_to(fi.node, p):
+                for nd in cfg.nodes_for(st):
+                    if nd.id in after:
+                        ok = False   # re-assigned after the test: the fact may be stale at the target
+        if ok:
+            out.add(canon_fact(t.ast, via_t))
+    return out
